@@ -256,6 +256,37 @@ def lineVerdict (root : Rules.Pos) (i : Search.Info) : String :=
       else if !(Rules.isCheckmate endPos) then "mate-not-mate"
       else "ok"
 
+/-- `verify <fen> <played> <best> <score,pv;score,pv;…>`: the rules' verdict on what an
+    implementation reported (independent of the search model) -/
+def verifyHandle (fen played best infos : String) : String × String :=
+  match readPosition fen with
+  | none => bad
+  | some p =>
+    let ms := ((played.splitOn " ").filter (· ≠ "")).map parseMove
+    if ms.any Option.isNone then bad else
+    let root := ms.foldl (fun pos m => match m with | some m => Rules.apply pos m | none => pos) p.pos
+    let legal := Rules.legalMoves root
+    let bestOk := match parseMove best with
+      | some m => legal.contains m
+      | none => false
+    let verdicts := ((infos.splitOn ";").filter (· ≠ "")).map fun it =>
+      match it.splitOn "," with
+      | [sc, pv] =>
+        let moves := ((pv.splitOn "/").filter (· ≠ "")).map parseMove
+        if moves.any Option.isNone then "unparseable" else
+        let moves := moves.filterMap id
+        let score : Option Int :=
+          if sc.startsWith "cp" then intOf? (sc.drop 2).toString
+          else if sc.startsWith "mate" then
+            -- reconstruct a representative raw score from the announced distance
+            (intOf? (sc.drop 4).toString).map fun n => if n > 0 then Gen.mate - (2 * n - 1) else -Gen.mate + 2 * (-n)
+          else none
+        match score with
+        | none => "unparseable"
+        | some v => if moves.isEmpty then "empty" else lineVerdict root ⟨0, 0, v, 0, 0, moves⟩
+      | _ => "unparseable"
+    ("-", s!"bestlegal={boolDigit bestOk} nlegal={legal.length} lines=[{" ".intercalate verdicts}]")
+
 structure Job where
   fen : String
   moves : List String
